@@ -28,6 +28,7 @@ import GraphiqModel.Proofs.CommuteHilbert
 import GraphiqModel.Proofs.CommuteProb
 import GraphiqModel.Proofs.SweepCommuteDM
 import GraphiqModel.Proofs.SweepCommuteDMRefine
+import GraphiqModel.Proofs.DMCompileH
 namespace Graphiq.C13
 open Graphiq Graphiq.Wire
 
@@ -1061,6 +1062,31 @@ theorem density_matrix_run_is_weighted_rho_of_compiled_tableau (c : Circuit) (hg
     exact (iff_of_eq (congrFun this P)).symm
   rw [one_smul, one_mul, hρ] at hD
   exact ⟨w, hw, hD⟩
+
+/-- **… and to C01's reading of the `DensityMatrixCompiler`**: `DMH.dmRunH` (C01: the setting- and script-driven Hilbert-space
+    run of the density-matrix backend, normalised after every measurement) returns, on the same compile sequence, a state
+    whose matrix is `ρ(s'.t)` (`C01.backends_agree`), and the outcome-attached, unnormalised run of `Commute.appD` ends in
+    `w` times that matrix, `w ≠ 0` the probability of the recorded outcomes.  So the order-independence and rewrite-invariance
+    theorems of this section (`compile_independent_of_topological_order_dm`, `rewrite_chain_preserves_compiled_state_dm`) speak
+    about the very matrices C01's density-matrix run produces, branch by branch. -/
+theorem density_matrix_compiler_run_is_normalised_appD_run (c : Circuit) (hgood : c.Good) (har : Commute.ArityOk c)
+    (seq : List Nat) (d : Det) (script : List Bool) (s' : RunState)
+    (h : stabRun c.ne c.np d script ((c.sops seq).map Commute.toCOp) = some s') (sc : Commute.Script) :
+    ∃ (r : DMH.HState (c.ne + c.np)) (w : ℂ),
+      DMH.dmRunH c.ne c.np d script ((c.sops seq).map Commute.toCOp) = some r ∧
+      r.ρ = Hilbert.tabRho (c.ne + c.np) s'.t ∧ w ≠ 0 ∧
+      runSeq (Commute.appD c.ne c.np) (c.sops seq)
+        (some (Hilbert.tabRho (c.ne + c.np) (Tab.ket0 (c.ne + c.np)), Commute.feed c.ne c.np (c.sops seq) s'.outs sc))
+        = some (w • r.ρ, sc) := by
+  have hwf : ∀ op, op ∈ (c.sops seq).map Commute.toCOp → op.WF c.np := by
+    intro op hop
+    obtain ⟨a, ha, rfl⟩ := List.mem_map.1 hop
+    obtain ⟨hsome, hnd⟩ := Commute.sops_ok c hgood har seq a ha
+    obtain ⟨dd, hdd⟩ := Option.isSome_iff_exists.1 hsome
+    have hw2 := (Commute.decode_toCOp c.ne c.np a dd hdd hnd).1
+    cases hc : Commute.toCOp a <;> rw [hc] at hw2 <;> first | exact hw2 | trivial
+  obtain ⟨w, hw, hD⟩ := density_matrix_run_is_weighted_rho_of_compiled_tableau c hgood har seq d script s' h sc
+  exact ⟨_, w, DMH.dmRunH_eq_stab c.ne c.np d script _ hwf s' h, rfl, hw, hD⟩
 
 /-- the hypotheses of `density_matrix_run_is_weighted_rho_of_compiled_tableau` are met by `exD` (a circuit with a measurement,
     forced to 1, which is random): `stabRun` returns, so the density-matrix run along its compile sequence ends in a non-zero
